@@ -54,6 +54,10 @@ def handleSerial (op : String) (j : Json) : Option (Except String Json) :=
     let qs ← arr.toList.mapM getRat
     pure (Json.mkObj [("ok", Json.arr (qs.map fun q => Json.str (Serial.fmt4g q)).toArray),
                       ("r4", Json.arr (qs.map fun q => jRat (Serial.round4 q)).toArray)])
+  | "readnum" => run do
+    let arr ← (← j.getObjVal? "ss").getArr?
+    let ss ← arr.toList.mapM fun x => x.getStr?
+    pure (Json.mkObj [("ok", Json.arr (ss.map fun s => match Serial.readNum s with | some q => jRat q | none => Json.null).toArray)])
   | "to_strs" => run do
     let names ← getNames (← j.getObjVal? "names")
     let lists ← (← j.getObjVal? "lists").getArr?
